@@ -73,6 +73,9 @@ func HarnessC08(fam, nT, nV, convCode, form, filt int) {
 	// the target also produces outputs so that the output filter has subjects, and
 	// (symbolically) declares a final error, which is not an output
 	w.Target.Out = []hLabel{{T: hTP2}, {T: hTP3}}
+	if vnBool("namedOutput") {
+		w.Target.Out[0].Name = "o" // named outputs are outputs too (struct forms only)
+	}
 	if vnBool("targetHasErr") {
 		w.Target.HasErr = true
 	}
